@@ -510,12 +510,12 @@ Section Main.
   Qed.
 
   Lemma pure_branch_spec addr extra ce X b s s1 (o o1 : O) :
-    pure_branch orc addr extra ce X s o = mkOut (Ok b) s1 o1 ->
+    pure_branch_legacy orc addr extra ce X s o = mkOut (Ok b) s1 o1 ->
     ((forall y, s_fee_request s <> FeeExactly y) -> X = get_new_fee (s_fee_request s) (need_w e s 9)) ->
     X <= coin ce ->
     pre_post s b s1.
   Proof.
-    unfold pure_branch. intros H HX Hce.
+    unfold pure_branch_legacy. intros H HX Hce.
     minv H as min_ada s' o' H1 H2. apply (askA_inv orc) in H1. subst s'.
     destruct (coin ce <? min_ada).
     { apply burn_extra_spec in H2 as (-> & ->). apply (burn_post _ _ X); auto. }
@@ -635,19 +635,19 @@ Section Split.
   Variable orc : @oracle O.
 
   Lemma asset_branch_split fuel addr extra it ot fee s (o : O) :
-    asset_branch orc fuel addr extra it ot fee s o =
+    asset_branch_legacy orc fuel addr extra it ot fee s o =
     bindM (asset_branch_pre orc fuel addr extra it ot fee) (finish_change orc) s o.
   Proof.
-    unfold asset_branch, asset_branch_pre.
+    unfold asset_branch_legacy, asset_branch_pre.
     do 6 (rewrite bindM_assoc; apply bindM_ext; intros).
     rewrite bindM_assoc. apply bindM_ext; intros. reflexivity.
   Qed.
 
   Lemma add_change_split fuel addr extra s (o : O) :
-    add_change orc fuel addr extra s o =
+    add_change_legacy orc fuel addr extra s o =
     bindM (add_change_pre orc fuel addr extra) (finish_change orc) s o.
   Proof.
-    unfold add_change, add_change_pre.
+    unfold add_change_legacy, add_change_pre.
     rewrite bindM_assoc; apply bindM_ext; intros sg s1 o1.
     destruct (s_fee sg); [reflexivity|].
     do 4 (rewrite bindM_assoc; apply bindM_ext; intros).
@@ -698,8 +698,8 @@ Section Theorems.
   Qed.
 
   (* C06_policy: the fee add_change stores respects the request *)
-  Theorem add_change_policy fuel addr extra b s s' (o o' : O) :
-    add_change orc fuel addr extra s o = mkOut (Ok b) s' o' ->
+  Theorem add_change_legacy_policy fuel addr extra b s s' (o o' : O) :
+    add_change_legacy orc fuel addr extra s o = mkOut (Ok b) s' o' ->
     exists F, s_fee s' = Some F /\ s_fee_request s' = s_fee_request s /\ policy_ok (s_fee_request s) F.
   Proof.
     intros H. rewrite add_change_split in H. minv H as bg s1 o1 Hpre Hfin.
@@ -711,8 +711,8 @@ Section Theorems.
   Qed.
 
   (* C06_sufficient *)
-  Theorem add_change_fee_sufficient fuel addr extra b s s' (o o' : O) :
-    add_change orc fuel addr extra s o = mkOut (Ok b) s' o' ->
+  Theorem add_change_legacy_fee_sufficient fuel addr extra b s s' (o o' : O) :
+    add_change_legacy orc fuel addr extra s o = mkOut (Ok b) s' o' ->
     (forall y, s_fee_request s <> FeeExactly y) ->
     slack_ok e orc fuel addr extra s o = true ->
     sufficient e s'.
@@ -907,6 +907,133 @@ Proof.
 Qed.
 
 (* ------------------------------------------------------------------------------------------- *)
+(* the repaired add_change = the old one followed by check_fee_after_change on the paths that return true *)
+
+Section Fix.
+  Context {O : Type}.
+  Variable orc : @oracle O.
+
+  Lemma burn_extra_post x s (o : O) :
+    burn_extra x s o = bindM (burn_extra x) (post_check orc) s o.
+  Proof.
+    unfold burn_extra. rewrite bindM_assoc. apply bindM_ext. intros sg s1 o1.
+    destruct (c_do_not_burn_extra_change (s_cfg sg)); [reflexivity|].
+    assert (G : forall s2 (o2 : O), bindM (modify (set_final_fee x)) (fun _ => ret false) s2 o2
+                = bindM (bindM (modify (set_final_fee x)) (fun _ => ret false)) (post_check orc) s2 o2).
+    { intros. rewrite bindM_assoc. apply bindM_ext. intros. reflexivity. }
+    destruct (s_fee_request sg); try apply G.
+    destruct (f <? x); [reflexivity | apply G].
+  Qed.
+
+  Lemma pure_branch_fix_split addr extra ce fee s (o : O) :
+    pure_branch orc addr extra ce fee s o = bindM (pure_branch_legacy orc addr extra ce fee) (post_check orc) s o.
+  Proof.
+    unfold pure_branch, pure_branch_legacy.
+    rewrite bindM_assoc; apply bindM_ext; intros.
+    destruct (coin ce <? a); [apply burn_extra_post|].
+    do 3 (rewrite bindM_assoc; apply bindM_ext; intros).
+    destruct (coin ce <? a2); [apply burn_extra_post|].
+    do 3 (rewrite bindM_assoc; apply bindM_ext; intros). reflexivity.
+  Qed.
+
+  Lemma asset_branch_fix_split fuel addr extra it ot fee s (o : O) :
+    asset_branch orc fuel addr extra it ot fee s o
+    = bindM (asset_branch_legacy orc fuel addr extra it ot fee) (post_check orc) s o.
+  Proof.
+    unfold asset_branch, asset_branch_legacy.
+    do 8 (rewrite bindM_assoc; apply bindM_ext; intros). reflexivity.
+  Qed.
+
+  Lemma add_change_fix_split fuel addr extra s (o : O) :
+    add_change orc fuel addr extra s o = bindM (add_change_legacy orc fuel addr extra) (post_check orc) s o.
+  Proof.
+    unfold add_change, add_change_legacy.
+    rewrite bindM_assoc; apply bindM_ext; intros sg s1 o1.
+    destruct (s_fee sg); [reflexivity|].
+    do 4 (rewrite bindM_assoc; apply bindM_ext; intros).
+    destruct a2; [reflexivity|].
+    rewrite bindM_assoc; apply bindM_ext; intros.
+    destruct (value_partial_cmp a0 a2) as [[ | | ]|]; try reflexivity.
+    - do 2 (rewrite bindM_assoc; apply bindM_ext; intros). reflexivity.
+    - rewrite bindM_assoc; apply bindM_ext; intros.
+      destruct (has_assets (multiasset_of a3)); [apply asset_branch_fix_split | apply pure_branch_fix_split].
+  Qed.
+
+  Variable e : env.
+  Hypothesis Hfee : fee_exact e orc.
+
+  (* the check leaves the state alone; when it passes (fee not fixed by the caller) the stored fee covers the estimate *)
+  Lemma check_fee_after_change_inv u s s' (o o' : O) :
+    check_fee_after_change orc s o = mkOut (Ok u) s' o' ->
+    s' = s /\ ((forall y, s_fee_request s <> FeeExactly y) -> forall F, s_fee s = Some F -> need e s F <= F).
+  Proof.
+    unfold check_fee_after_change. intros H. minv H as sg s1 o1 H1 H2. apply get_inv in H1 as (-> & -> & ->).
+    assert (G : (match s_fee s with
+                 | Some fee => bindM (askF orc s) (fun mf => if fee <? mf then lift Err else ret tt)
+                 | None => ret tt end) s o = mkOut (Ok u) s' o' ->
+                s' = s /\ forall F, s_fee s = Some F -> need e s F <= F).
+    { destruct (s_fee s) as [F|] eqn:EF.
+      - intros G. minv G as mf s1 o1 G1 G2. apply (askF_inv orc e Hfee) in G1 as (Hm & ->).
+        destruct (N.ltb_spec F mf); [apply lift_inv in G2 as (? & _); discriminate|].
+        apply ret_inv in G2 as (_ & -> & _). split; auto. intros F' HF'. inversion HF'; subst F'.
+        apply min_fee_model_ok in Hm as (f & Hf & ->). unfold get_fee_if_set in Hf. rewrite EF in Hf.
+        inversion Hf; subst. exact H.
+      - intros G. apply ret_inv in G as (_ & -> & _). split; auto. discriminate. }
+    destruct (s_fee_request s) eqn:Er.
+    - apply G in H2 as (-> & H2). split; auto.
+    - apply G in H2 as (-> & H2). split; auto.
+    - apply ret_inv in H2 as (_ & -> & _). split; auto. intros Hne. exfalso. eapply Hne; eauto.
+  Qed.
+
+  (* what a successful run of the OLD code leaves (from the analysis of the pricing phase) *)
+  Lemma add_change_legacy_post fuel addr extra b s s1 (o o1 : O) :
+    add_change_legacy orc fuel addr extra s o = mkOut (Ok b) s1 o1 ->
+    exists F, s_fee s1 = Some F /\ s_fee_request s1 = s_fee_request s /\ policy_ok (s_fee_request s) F /\
+      (b = false -> (forall y, s_fee_request s <> FeeExactly y) -> need e s1 F <= F).
+  Proof.
+    intros H. pose proof H as Hpol. apply (add_change_legacy_policy orc e Hfee) in Hpol as (F & HF & Hr & Hp).
+    exists F. repeat split; auto. intros -> Hne.
+    rewrite add_change_split in H. minv H as bg s2 o2 Hpre Hfin.
+    apply (add_change_pre_spec orc e Hfee) in Hpre as (_ & (x & Hf & Hc & Hrq & Hn) & Hg).
+    apply finish_change_spec in Hfin as (Hb & Hsame & _).
+    destruct bg as [b g]; cbn [fst snd] in *. subst b.
+    assert (g = None) as -> by (destruct g; auto; assert (false = true) by (apply Hg; discriminate); discriminate).
+    rewrite (Hsame eq_refl) in *. rewrite Hf in HF. inversion HF; subst F.
+    specialize (Hn Hne). pose proof (head_size_bounds (get_new_fee (s_fee_request s) x)).
+    pose proof (need_w_mono_w e s2 9 (head_size (get_new_fee (s_fee_request s) x))). unfold need. lia.
+  Qed.
+
+  (* C06_sufficient, full strength: every successful add_change (fee not fixed by the caller) stores a sufficient fee *)
+  Theorem add_change_fee_sufficient fuel addr extra b s s' (o o' : O) :
+    add_change orc fuel addr extra s o = mkOut (Ok b) s' o' ->
+    (forall y, s_fee_request s <> FeeExactly y) ->
+    sufficient e s'.
+  Proof.
+    intros H Hne. rewrite add_change_fix_split in H. minv H as b1 s1 o1 Hl Hp.
+    apply add_change_legacy_post in Hl as (F & HF & Hr & _ & Hfalse).
+    unfold post_check in Hp. destruct b1.
+    - minv Hp as u s2 o2 Hc Hret. apply check_fee_after_change_inv in Hc as (-> & Hc).
+      apply ret_inv in Hret as (_ & -> & _). exists F. split; auto. apply Hc; auto. rewrite Hr. exact Hne.
+    - apply ret_inv in Hp as (_ & -> & _). exists F. split; auto.
+  Qed.
+
+  (* C06_policy for the repaired code *)
+  Theorem add_change_policy fuel addr extra b s s' (o o' : O) :
+    add_change orc fuel addr extra s o = mkOut (Ok b) s' o' ->
+    exists F, s_fee s' = Some F /\ s_fee_request s' = s_fee_request s /\ policy_ok (s_fee_request s) F.
+  Proof.
+    intros H. rewrite add_change_fix_split in H. minv H as b1 s1 o1 Hl Hp.
+    apply add_change_legacy_post in Hl as (F & HF & Hr & Hpol & _).
+    assert (s' = s1) as ->.
+    { unfold post_check in Hp. destruct b1.
+      - minv Hp as u s2 o2 Hc Hret. apply check_fee_after_change_inv in Hc as (-> & _).
+        apply ret_inv in Hret as (_ & -> & _). reflexivity.
+      - apply ret_inv in Hp as (_ & -> & _). reflexivity. }
+    eauto.
+  Qed.
+End Fix.
+
+(* ------------------------------------------------------------------------------------------- *)
 (* witnesses: the premises are satisfiable, and the slack premise cannot be dropped *)
 
 Lemma sufficientb_spec e s : sufficientb e s = true <-> sufficient e s.
@@ -942,19 +1069,20 @@ Example sufficient_premises_mainnet :
   let orc := size_oracle e_main 4310 5000 in
   let r := add_change orc 10 1 0 s_tok tt in
   out_res r = Ok true /\ s_fee (out_st r) = Some 165897 /\ s_fee_request s_tok = FeeUnspecified /\
-  slack_ok e_main orc 10 1 0 s_tok tt = true /\ need e_main (out_st r) 165897 = 165897.
+  slack_ok e_main orc 10 1 0 s_tok tt = true /\ need e_main (out_st r) 165897 = 165897 /\
+  out_res (add_change_legacy orc 10 1 0 s_tok tt) = Ok true.
 Proof. vm_compute. repeat split. Qed.
 
-(* 100 lovelace per byte: the change output is priced with a 3-byte coin and topped up to a 9-byte one; the
+(* THE OLD CODE, 100 lovelace per byte: the change output is priced with a 3-byte coin and topped up to a 9-byte one; the
    9-byte fee placeholder only covers 4 of the 6 extra bytes: fee 165809 < 165897 *)
-Theorem sufficient_refuted :
+Theorem legacy_sufficient_refuted :
   exists (e : env) (orc : @oracle unit) fuel addr extra s b s' o',
     fee_exact e orc /\ s_fee_request s = FeeUnspecified /\
-    add_change orc fuel addr extra s tt = mkOut (Ok b) s' o' /\
+    add_change_legacy orc fuel addr extra s tt = mkOut (Ok b) s' o' /\
     slack_ok e orc fuel addr extra s tt = false /\ ~ sufficient e s'.
 Proof.
   exists e_main, (size_oracle e_main 100 5000), 10%nat, 1, 0, s_tok.
-  remember (add_change (size_oracle e_main 100 5000) 10 1 0 s_tok tt) as r eqn:Er.
+  remember (add_change_legacy (size_oracle e_main 100 5000) 10 1 0 s_tok tt) as r eqn:Er.
   exists true, (out_st r), (out_orc r).
   split; [apply size_oracle_fee_exact|]. split; [reflexivity|].
   split; [rewrite Er; vm_compute; reflexivity|].
@@ -962,22 +1090,28 @@ Proof.
   intros H. apply sufficientb_spec in H. rewrite Er in H. vm_compute in H. discriminate.
 Qed.
 
-(* a requested minimal fee of 65535 just above the estimate (binding), the fee ends at 65560: its field is 5 bytes
-   wide but was priced with the 3 bytes of 65535: fee 65560 < 65648 *)
-Theorem notless_refuted :
+(* THE OLD CODE: a requested minimal fee of 65535 just above the estimate (binding), the fee ends at 65560: its field is
+   5 bytes wide but was priced with the 3 bytes of 65535: fee 65560 < 65648 *)
+Theorem legacy_notless_refuted :
   exists (e : env) (orc : @oracle unit) fuel addr extra s r b s' o',
     fee_exact e orc /\ s_fee_request s = FeeNotLess r /\ binding e s = true /\
-    add_change orc fuel addr extra s tt = mkOut (Ok b) s' o' /\
+    add_change_legacy orc fuel addr extra s tt = mkOut (Ok b) s' o' /\
     slack_ok e orc fuel addr extra s tt = false /\ ~ sufficient e s'.
 Proof.
   exists e_nl, (size_oracle e_nl 4310 5000), 10%nat, 1, 0, s_nl, 65535.
-  remember (add_change (size_oracle e_nl 4310 5000) 10 1 0 s_nl tt) as r eqn:Er.
+  remember (add_change_legacy (size_oracle e_nl 4310 5000) 10 1 0 s_nl tt) as r eqn:Er.
   exists true, (out_st r), (out_orc r).
   split; [apply size_oracle_fee_exact|]. split; [reflexivity|]. split; [vm_compute; reflexivity|].
   split; [rewrite Er; vm_compute; reflexivity|].
   split; [vm_compute; reflexivity|].
   intros H. apply sufficientb_spec in H. rewrite Er in H. vm_compute in H. discriminate.
 Qed.
+
+(* the repaired add_change refuses both *)
+Example fixed_refuses_witnesses :
+  out_res (add_change (size_oracle e_main 100 5000) 10 1 0 s_tok tt) = Err /\
+  out_res (add_change (size_oracle e_nl 4310 5000) 10 1 0 s_nl tt) = Err.
+Proof. vm_compute. split; reflexivity. Qed.
 
 (* premises of the other theorems are satisfiable *)
 Example build_premises :
@@ -987,8 +1121,8 @@ Example build_premises :
 Proof. vm_compute. eexists. split; reflexivity. Qed.
 
 Example policy_premises :
-  let orc := size_oracle e_nl 4310 5000 in
-  out_res (add_change orc 10 1 0 s_nl tt) = Ok true.
+  let orc := size_oracle e_main 4310 5000 in
+  out_res (add_change orc 10 1 0 (set_s_fee_request (FeeNotLess 200000) s_tok) tt) = Ok true.
 Proof. vm_compute. reflexivity. Qed.
 
 (* before /repo 0fc161c: set_fee AFTER add_change was ignored by build_tx: the body carries the computed fee 165897,
